@@ -22,6 +22,7 @@ inductive SOp where
   | dumpload
   | setName (s : Str)                -- in-memory change of a signed field (name of a link / readme of a layout)
   | corrupt (i : Nat)                -- flip a bit in the i-th signature
+  | poke (s : Str)                   -- in-place change of nested signed content: first element of a link's command list / name of a layout's first step
   deriving Repr
 
 def worldOf (W0 : World) (st : SState) : World :=
@@ -50,6 +51,22 @@ def setNameP (p : Payload) (s : Str) : Payload :=
   match p with
   | .link v => .link (fset v (lit% "name") (.str s))
   | .layout v => .layout (fset v (lit% "readme") (.str s))
+
+/-- a write THROUGH a slice element of the in-memory payload (`link.Command[0] = s`,
+    `layout.Steps[0].Name = s`): the payload is not re-assigned, only nested content changes.
+    Nothing happens when there is no such element (nil / empty list, field absent or of another
+    shape; for a layout: first element not a struct). -/
+def pokeP (p : Payload) (s : Str) : Payload :=
+  match p with
+  | .link v =>
+    match fget v (lit% "command") with
+    | .list (some (_ :: rest)) => .link (fset v (lit% "command") (.list (some (.str s :: rest))))
+    | _ => .link v
+  | .layout v =>
+    match fget v (lit% "steps") with
+    | .list (some (.struct fs :: rest)) =>
+      .layout (fset v (lit% "steps") (.list (some (fset (.struct fs) (lit% "name") (.str s) :: rest))))
+    | _ => .layout v
 
 def corruptNth : List TVal → Nat → Bool → List TVal
   | [], _, _ => []
@@ -91,6 +108,13 @@ def sstep (W0 : World) (st : SState) (op : SOp) : SState × String :=
     | .dsse _ _ _ p =>
       -- an envelope's payload can only be changed through SetPayload, which starts a new envelope
       match setPayload (setNameP p s) with
+      | .ok m => ({ st with md := m }, "ok")
+      | _ => (st, "err")
+  | .poke s =>
+    match st.md with
+    | .legacy p sg => ({ st with md := .legacy (pokeP p s) sg }, "ok")
+    | .dsse _ _ _ p =>
+      match setPayload (pokeP p s) with
       | .ok m => ({ st with md := m }, "ok")
       | _ => (st, "err")
   | .corrupt i =>
